@@ -50,6 +50,18 @@ CLAIMED = {
    note="Exact schedule control only for the thread-based controllable executor; real pools are sampled; SLURM executors "
         "not exercised. Events are ordered by the gate lock / an O_APPEND log, never by wall clock.",
    technique="TLC-enumerated schedules replayed through a controllable executor; TLC trace validation"),
+ "C15": dict(
+   category="model_checking", design_ref="6 C15",
+   text="HashKey.tla defines abstract Python values, the equality oracle Eq and a branch-by-branch transcription of the key "
+        "scheme (pickle fallback = uninterpreted injective constructor); TLC checks on a TLA+-defined universe of look-alike "
+        "values (depth<=1 quick, <=2 thorough) that Eq is an equivalence and that the scheme is total, sound and complete "
+        "(key equal iff Eq, up to a stated don't-care class) and exports the expected equality pattern; two child interpreters "
+        "with different PYTHONHASHSEED materialise every value, compute to_hashable, hashability, canonical key serialisation "
+        "and compare every ordered pair; memoize, cached pipeline calls and cached map are driven with the same pairs.",
+   note="Trusted: TLC, the abstract->Python value encoder, Python's own ==. Don't-cares: numerically equal scalars of "
+        "different numeric type, array typecode / deque.maxlen / default_factory, pickle-fallback objects with differing "
+        "pickles, pickle bytes of as-is frozensets.",
+   technique="TLA+ value/key model checked by TLC; universe export; pairwise conformance in two interpreters"),
 }
 NOT_YET = "check not built yet in this round (specification module planned in DESIGN.md section 6)"
 
